@@ -31,7 +31,7 @@ from harness import lib_c05 as L
 PROPS = 'XsVerif.Props.C05'
 AUDIT = 'XsVerif.Audit.C05'
 LEAN_TARGETS = ['XsVerif.Props.C05', 'drv_c05']
-LEANCHECK = ['XsVerif.Model.Converters', 'XsVerif.Props.C05']
+LEANCHECK = ['XsVerif.Model.Converters', 'XsVerif.Model.ContentOrder', 'XsVerif.Props.C05']
 RULE = ('a case is one (schema seed, instance, converter class, converter options[, mutation]); non-trivial = the '
         'document has at least one child element or attribute and the converter took a non-default branch '
         '(attributes dict, text, cdata, list value, repeated name collapsed into a list) — tagged by the branch '
@@ -893,6 +893,162 @@ def compare_model(ctx: Ctx, drv: Driver, u: Unit, cname: str, opts: dict, res: d
             ctx.count('enc1:' + ('ok' if 'ok' in want else want['error']))
 
 
+# ------------------------------------------------------------------------------------ content re-ordering helpers
+
+_ORD: dict = {'states': None, 'universe': (), 'group': None}
+
+
+def rec_visitor_class():
+    from xmlschema.validators import models
+    if 'cls' in _ORD:
+        return _ORD['cls']
+
+    class RecVisitor(models.ModelVisitor):      # records the state after construction and after every advance
+        __slots__ = ()
+
+        def __init__(self, root):
+            super().__init__(root)
+            snap(self)
+
+        def advance(self, match=False):
+            yield from super().advance(match)
+            snap(self)
+
+    def snap(v):
+        if _ORD['states'] is None:
+            return
+        if v.element is None:
+            _ORD['states'].append(None)
+        else:
+            g = _ORD['group']
+            _ORD['states'].append([n for n in _ORD['universe'] if v.element.is_matching(n, group=g)])
+    _ORD['cls'] = RecVisitor
+    return RecVisitor
+
+
+def run_order(fn_name: str, content, group, universe):
+    """call the real helper with a recording visitor; returns (script, output or exception class)"""
+    from xmlschema.validators import models
+    saved = models.ModelVisitor
+    _ORD.update(states=[], universe=tuple(universe), group=group)
+    models.ModelVisitor = rec_visitor_class()
+    try:
+        out = list(getattr(models, fn_name)(content, group))
+        res: Any = {'ok': [{'c': [k, L.canon(v)]} if isinstance(k, int) else {'n': [k, L.canon(v)]} for k, v in out]}
+    except (ValueError, TypeError):
+        res = {'error': 'caught'}
+    except Exception:
+        res = {'error': 'leak'}
+    finally:
+        models.ModelVisitor = saved
+    script = _ORD['states']
+    _ORD['states'] = None
+    return script, res
+
+
+def order_variants(rng, content: list) -> list:
+    """the content as returned by element_encode, plus re-ordered / duplicated / foreign-name variants"""
+    out = [('as-encoded', list(content))]
+    if len(content) > 1:
+        sh = list(content)
+        rng.shuffle(sh)
+        out.append(('shuffled', sh))
+        rev = list(reversed(content))
+        out.append(('reversed', rev))
+    names = [c for c in content if isinstance(c[0], str)]
+    if names:
+        dup = list(content)
+        dup.insert(rng.randrange(len(dup) + 1), rng.choice(names))
+        out.append(('duplicated', dup))
+        unk = list(content)
+        unk.insert(rng.randrange(len(unk) + 1), ('zz-unknown', rng.choice(names)[1]))
+        out.append(('unknown-name', unk))
+        # interleave: a b a b
+        if len(names) > 2:
+            il = names[::2] + names[1::2]
+            out.append(('interleaved', il))
+    # cdata keys must stay unique
+    res = []
+    for tag, v in out:
+        seen = set()
+        ok = True
+        for k, _ in v:
+            if isinstance(k, int):
+                if k in seen:
+                    ok = False
+                seen.add(k)
+        if ok:
+            res.append((tag, v))
+    return res
+
+
+def order_cases(ctx: Ctx, drv: Optional[Driver], u: Unit, res: dict, limit: int) -> None:
+    """iter_unordered_content / iter_collapsed_content: permutation property on the real code, and
+    correspondence with the Lean model replayed against the recorded visitor"""
+    from collections import Counter
+    reqs, meta = [], []
+    done = 0
+    for ent in res.get('enclog', []):
+        if ent[0] != 'enc' or done >= limit:
+            continue
+        _, obj, xe, level, ed, tabs = ent
+        content = ed.content
+        group = xe.type.model_group
+        if group is None or not isinstance(content, list) or not content or \
+                not all(isinstance(c, tuple) and len(c) == 2 and isinstance(c[0], (int, str)) for c in content):
+            continue
+        done += 1
+        for vtag, var in order_variants(ctx.rng, content):
+            universe = sorted({k for k, _ in var if isinstance(k, str)})
+            canon_in = Counter(json.dumps([k, L.canon(v)], sort_keys=True) for k, v in var)
+            for fn in ('iter_collapsed_content', 'iter_unordered_content'):
+                forms = [('list', var)]
+                if fn == 'iter_unordered_content':
+                    d: dict = {}
+                    for k, v in var:
+                        if isinstance(k, int):
+                            d[k] = v
+                        else:
+                            d.setdefault(k, []).append(v)
+                    forms.append(('dict', d))
+                for form, inp in forms:
+                    script, out = run_order(fn, inp, group, universe)
+                    case = {'sid': u.sid, 'xml': u.xml, 'helper': fn, 'form': form, 'variant': vtag,
+                            'content': [[k, L.canon(v)] for k, v in var], 'element': xe.name}
+                    moved = 'ok' in out and [x.get('n', x.get('c'))[0] for x in out['ok']] != [k for k, _ in var]
+                    ctx.case(case, True, tag=f'order/{fn}')
+                    ctx.count(f'order:{fn}:{"reordered" if moved else "same-order" if "ok" in out else out["error"]}')
+                    # the property on the real code: a permutation of the input
+                    if 'ok' in out:
+                        got = Counter(json.dumps([x['c'][0], x['c'][1]] if 'c' in x else [x['n'][0], x['n'][1]],
+                                                 sort_keys=True) for x in out['ok'])
+                        if got != canon_in:
+                            ctx.failure(f'{fn} dropped, duplicated or altered an entry', dict(case, xsd=u.xsd),
+                                        {'output': out['ok']})
+                    else:
+                        ctx.failure(f'{fn} raised', dict(case, xsd=u.xsd), out)
+                    if drv is None:
+                        continue
+                    if fn == 'iter_collapsed_content':
+                        items = [{'c': [k, L.canon(v)]} if isinstance(k, int) else {'n': [k, False, L.canon(v)]}
+                                 for k, v in var]
+                        reqs.append({'op': 'collapsed', 'script': script, 'content': items})
+                    else:
+                        cd = sorted([[k, L.canon(v)] for k, v in var if isinstance(k, int)], key=lambda x: x[0])
+                        b: dict = {}
+                        for k, v in var:
+                            if isinstance(k, str):
+                                b.setdefault(k, []).append(L.canon(v))
+                        reqs.append({'op': 'unordered', 'script': script, 'cdata': cd,
+                                     'buckets': [[k, vs] for k, vs in b.items()]})
+                    meta.append((case, out))
+    if drv is not None and reqs:
+        for (case, want), ans in zip(meta, drv.query(reqs)):
+            ctx.traces += 1
+            if ans != want:
+                ctx.mismatch(f'{case["helper"]} ({case["form"]})', case, want, ans)
+
+
 # ------------------------------------------------------------------------------------ run
 
 def build_units(ctx: Ctx, n_schemas: int, n_inst: int):
@@ -955,6 +1111,8 @@ def explore(ctx: Ctx, drv: Optional[Driver], n_schemas: int, n_inst: int, n_mut:
                     soundness(ctx, u, cname, opts, res['data'], n_mut, pend)
                 if drv is not None and 'data' in res:
                     compare_model(ctx, drv, u, cname, opts, res, pend)
+                if cname == 'badgerfish' and not opts and 'data' in res:
+                    order_cases(ctx, drv, u, res, 4)
         if ctx.time_left() < 120:
             ctx.notes.append('time box reached; exploration cut short')
             break
@@ -970,8 +1128,13 @@ def load_findings(ctx: Ctx) -> None:
 def run(ctx: Ctx, driver_ok: bool) -> None:
     load_findings(ctx)
     drv = Driver('drv_c05') if driver_ok else None
-    explore(ctx, drv, ctx.pick(40, 400), ctx.pick(3, 5), ctx.pick(4, 8))
-    ctx.extra['explanation'] = 'seeded random schemas x valid instances x 5 converter classes x options'
+    explore(ctx, drv, ctx.pick(40, 250), ctx.pick(3, 5), ctx.pick(4, 6))
+    ctx.extra['explanation'] = ('seeded random schemas x valid instances x 5 converter classes x options; per case: '
+                                'round trip on the real code, mutated-data strict encode, Lean model comparison '
+                                '(JsonML: every element_decode/element_encode call + whole tree; '
+                                'iter_unordered_content/iter_collapsed_content replayed with the recorded visitor)')
+    ctx.extra['converters_modelled_in_lean'] = list(MODELLED)
+    ctx.extra['converters_differential_only'] = [c for c in conv_classes() if c not in MODELLED]
 
 
 def search(ctx: Ctx) -> None:
@@ -981,18 +1144,69 @@ def search(ctx: Ctx) -> None:
 
 def replay(ctx: Ctx, obj: dict) -> int:
     import xmlschema
-    print(json.dumps(obj, indent=1)[:6000])
+    from xmlschema import XMLSchemaValidationError
+    print(json.dumps(obj, indent=1, default=str)[:6000])
     case = obj.get('input')
     if not case or 'xsd' not in case:
         return 0
     schema = xmlschema.XMLSchema(case['xsd'])
     u = Unit(case.get('sid', 0), case['xsd'], schema, case['xml'], ET.fromstring(case['xml']), {})
     load_findings(ctx)
+    if 'helper' in case:
+        # content re-ordering helper: find the element declaration by name and re-run
+        from collections import Counter
+        xe = next((e for e in schema.iter_components() if getattr(e, 'name', None) == case['element']
+                   and hasattr(e, 'type') and e.type.model_group is not None), None)
+        if xe is None:
+            print('element declaration not found')
+            return 1
+        var = [(k, L.uncanon(v)) for k, v in case['content']]
+        script, out = run_order(case['helper'], var, xe.type.model_group,
+                                sorted({k for k, _ in var if isinstance(k, str)}))
+        print('real output:', json.dumps(out, default=str)[:2000])
+        want = Counter(json.dumps([k, v], sort_keys=True) for k, v in case['content'])
+        got = Counter(json.dumps(x['c'] if 'c' in x else x['n'], sort_keys=True) for x in out.get('ok', []))
+        bad = 'ok' not in out or want != got
+        print('JUDGEMENT:', 'FAILS ON THE REAL CODE: not a permutation of the input' if bad else 'holds')
+        return 1 if bad else 0
     if 'mutation' in case:
-        print('(mutated data replay: re-running the encoder on the stored data is not implemented for this case kind)')
-        return 1
+        cname, opts = case['converter'], case.get('options', {})
+        data = L.uncanon(case['data'])
+        try:
+            elem = schema.encode(data, converter=conv_classes()[cname], validation='strict', **opts)
+        except XMLSchemaValidationError as e:
+            print('real code: raised a validation error ->', str(e).split('Reason:')[-1][:200].strip())
+            print('JUDGEMENT: holds')
+            return 0
+        except Exception as e:
+            site = leak_site(e)
+            print('real code: raised', site)
+            fid = known_match(dict(case, leak_site=site), {'outcome': 'raised-' + classify_exc(e)})
+            print('JUDGEMENT:', 'known finding ' + fid if fid else 'FAILS ON THE REAL CODE: neither a validation error nor XML')
+            return 0 if fid else 1
+        try:
+            xml2 = tostring(elem, u)
+            ok = schema.is_valid(xml2)
+        except Exception as e:
+            ok, xml2 = False, 'serialise: ' + repr(e)[:200]
+        print('real code: returned', xml2[:1500])
+        print('is_valid:', ok)
+        if ok:
+            print('JUDGEMENT: holds')
+            return 0
+        rs = invalid_reasons(schema, xml2) if not xml2.startswith('serialise:') else None
+        nonstr = any((x.text is not None and not isinstance(x.text, str)) or
+                     (x.tail is not None and not isinstance(x.tail, str)) for x in elem.iter())
+        fid = known_match(case, {'xml2': xml2, 'reasons': sorted(rs) if rs else None, 'nonstr': nonstr})
+        print('JUDGEMENT:', 'known finding ' + fid if fid else
+              'FAILS ON THE REAL CODE: strict encode returned XML that the schema rejects')
+        return 0 if fid else 1
     res = roundtrip(ctx, u, case['converter'], case.get('options', {}))
     print('outcome on the real code:', res.get('outcome'))
+    if 'xml2' in res:
+        print('re-encoded document:', res['xml2'][:1500])
     for f in ctx.failures:
         print('FAILS ON THE REAL CODE:', f['what'], json.dumps(f['detail'], default=str)[:2000])
+    if not ctx.failures:
+        print('JUDGEMENT: holds' + (' (known findings: %s)' % ctx.known_hits if ctx.known_hits else ''))
     return 1 if ctx.failures else 0
